@@ -225,6 +225,8 @@ def runEntry (s : St) (e : Entry) (dests : List Peer) (n : Nat) : St × Nat × N
   answer `<ok|err:k> delivered=<d>`
 * `down <p>` — the peer stops and every connection with it is detected; answer: the handler
   invocations `h>p` in order
+* `freeze <p>` — the peer goes silent without closing anything (power loss, partition): the read
+  time-out of every connection with it is what reports it; same answer as `down`
 * `pause` — the survivor's receive loops stop reporting (`Router.Pause`, a test facility): failures
   that happen from now on leave stale entries; no effect on the model state
 * `kill <p>` — the peer stops and nobody notices yet: its connections become stale entries
@@ -249,7 +251,7 @@ def step (s : State) (toks : List String) : State × String :=
       let r := runEntry s e ds n
       (r.1, (if r.2.1 = 0 then "ok" else s!"err:{r.2.1}") ++ s!" delivered={r.2.2}")
     | _, _, _ => (s, "bad-op")
-  | ["down", p] =>
+  | ["down", p] | ["freeze", p] =>
     match p.toNat? with
     | some p =>
       let s1 := (C09.step s (.peerDown p)).1
